@@ -358,3 +358,48 @@ def call_route_pass(ctx):
                                                    'blade': bad[0], 'inspected': 'after all calls of this multivector were made'},
                                   str(bad[1])[:200], str(bad[2])[:200], key='call-route:mixed-constants')
                     break
+    # (4) coefficients that use functions whose python names differ from sympy's (Max, Min, Abs, sign) and (5) exact evaluation at
+    # python ints beyond 2**53: calling the multivector agrees with sympy substitution - exactly for integer arguments
+    alg = make_algebra([1, 1, 1])
+    fexprs = ['Max(s, t)', 'Min(s, t)', 'Abs(s - t)', 'Max(s, t) - Min(s, t)', 's*Max(t, 1)', 'Min(s, 0) + t']
+    for trial in range(4 if ctx.quick else 20):
+        ks = rng.sample(range(8), 2)
+        x = alg.multivector(keys=tuple(ks), values=[rng.choice(fexprs), 's'])
+        y = alg.multivector(keys=tuple(rng.sample(range(8), 2)), values=['t', 2])
+        for nm, m in (('x', x), ('x|y', x | y), ('x*y', x * y)):
+            fs = sorted(getattr(m, 'free_symbols', []), key=lambda sy: sy.name)
+            if not fs:
+                continue
+            for pt in ({'s': -3, 't': 0}, {'s': 2, 't': 5}, {'s': 0, 't': -1}, {'s': 4, 't': 4}):
+                a = {sy.name: pt[sy.name] for sy in fs}
+                case = {'keys': ks, 'coefficients': [str(c) for c in x.values()], 'multivector': nm, 'arguments': a}
+                ctx.case(case, tag='call-route:named-functions')
+                exp = {int(k): sympy.sympify(c).subs({sympy.Symbol(n): v for n, v in a.items()}) for k, c in zip(m.keys(), m.values())}
+                for form, thunk in (('keyword', lambda: m(**a)), ('positional', lambda: m(*[a[sy.name] for sy in fs]))):
+                    try:
+                        r = thunk()
+                        got = {int(k): sympy.sympify(v) for k, v in zip(r.keys(), r.values())}
+                    except Exception as e:
+                        ctx.violation('call-raises', {**case, 'form': form}, str(exp)[:200], repr(e)[:200], key='call-route:named-functions:raises')
+                        break
+                    if any(sympy.simplify(got.get(k, 0) - exp.get(k, 0)) != 0 for k in set(got) | set(exp)):
+                        ctx.violation('call-differs', {**case, 'form': form}, str(exp)[:200], str(got)[:200], key='call-route:named-functions')
+                        break
+    for trial in range(3 if ctx.quick else 12):
+        u = alg.vector(name='u'); v = alg.vector(name='v')
+        big = [10 ** 17 + 1, 10 ** 17, 3, 10 ** 17, 10 ** 17 - 1, 2]
+        rng.shuffle(big)
+        for nm, m in (('u^v', u ^ v), ('u*v', u * v), ('u|v', u | v)):
+            fs = sorted(m.free_symbols, key=lambda sy: sy.name)
+            a = {sy.name: big[i % len(big)] + rng.randint(0, 3) for i, sy in enumerate(fs)}
+            case = {'multivector': nm, 'arguments': {k_: str(v_) for k_, v_ in a.items()}}
+            ctx.case(case, tag='call-route:big-ints')
+            exp = {int(k): int(sympy.sympify(c).subs({sympy.Symbol(n): sympy.Integer(v_) for n, v_ in a.items()})) for k, c in zip(m.keys(), m.values())}
+            try:
+                r = m(**a)
+                got = {int(k): v_ for k, v_ in zip(r.keys(), r.values())}
+            except Exception as e:
+                ctx.violation('call-raises', case, str(exp)[:200], repr(e)[:200], key='call-route:big-ints:raises')
+                continue
+            if any(got.get(k, 0) != exp.get(k, 0) for k in set(got) | set(exp)):
+                ctx.violation('call-differs', case, str(exp)[:250], str(got)[:250], key='call-route:big-ints')
